@@ -125,7 +125,9 @@ func (w *World) afterCall(c *simapi.Call) {
 	if !w.CatchUp || w.Live || c.Rec == 0 || c.OK() {
 		return
 	}
-	if c.Res == simapi.Sets || c.Res == simapi.PVCs {
+	// a failed pod write comes after the reconcile listed its pods, so the pod cache may catch up too
+	// (the status updater / pod control re-read the listers in their conflict-retry loops)
+	if c.Res == simapi.Sets || c.Res == simapi.PVCs || (c.Res == simapi.Pods && c.IsWrite()) {
 		// one event per failed call: successive retries of the same write see successive cache states
 		// (e.g. a deletion first, the re-creation one attempt later)
 		n := -1
